@@ -35,6 +35,8 @@ def configs(tier):
     # the same burst options (with a nested filter_kwargs dict) used for two analyses with different min_n_cycles
     for src in ('thr', 'burst'):
         out.append({'rows': 2, 'n': 5, 'centre': 'peak', 'm_src': src, 'amp': False, 'reuse': True})
+    # no thresholds given at all: the documented defaults (burst_fraction_threshold 1, three cycles)
+    out.append({'rows': 3, 'n': 7, 'centre': 'peak', 'm_src': 'none', 'amp': False, 'nothr': True})
     # five cycles: a long run followed by a short one
     out.append({'rows': 5, 'n': 11, 'centre': 'peak', 'm_src': 'thr', 'amp': False})
     if not q:
@@ -75,6 +77,8 @@ def run(ctx, cfg):
     ctx.assume(m_t >= 0)
     ctx.assume(m_b >= 0)
     thresholds = {'burst_fraction_threshold': thr}
+    if cfg.get('nothr'):
+        thr = 1
     burst_kwargs = {}
     if src in ('thr', 'both'):
         thresholds['min_n_cycles'] = m_t
@@ -113,7 +117,7 @@ def run(ctx, cfg):
                                 burst_kwargs=first_bk, threshold_kwargs=first_thr)
             n_calls = 2
         df = ff.compute_features(sig, 500.0, (8.0, 12.0), center_extrema=centre, burst_method='amp',
-                                 burst_kwargs=bk_arg, threshold_kwargs=dict(thresholds))
+                                 burst_kwargs=bk_arg, threshold_kwargs=None if cfg.get('nothr') else dict(thresholds))
     except Exception as e:
         ctx.fail(exc_label(e))
         return
